@@ -3,6 +3,7 @@ package harness
 import (
 	"encoding/json"
 	"fmt"
+	"os"
 	"runtime"
 	"strings"
 	"sync"
@@ -528,6 +529,9 @@ func TestC11Default(t *testing.T) {
 		c := genC11Case(t)
 		c.Cache = "default"
 		ev.Class("default-cache-process")
+		if os.Getenv("VERIF_SYNCMAP") != "" {
+			ev.Class("a *sync.Map installed directly as the type cache")
+		}
 		c11Once(t, c, "default-cache")
 	})
 }
